@@ -1785,10 +1785,18 @@ class BaseBosonicState(BaseState):
         cutoff = kwargs.get("cutoff", 10)
         weights, mus, covs = self.reduced_bosonic(modes)  # pylint: disable=unused-variable
 
+        # thewalrus expects the (x_1, ..., x_n, p_1, ..., p_n) ordering
+        num = len(modes)
+        to_xxpp = np.concatenate([np.arange(0, 2 * num, 2), np.arange(1, 2 * num, 2)])
+
         rho = 0
         for i in range(self.num_weights):
             rho += weights[i] * twq.density_matrix(
-                mus[i], covs[i], hbar=self._hbar, normalize=False, cutoff=cutoff
+                mus[i][to_xxpp],
+                covs[i][to_xxpp][:, to_xxpp],
+                hbar=self._hbar,
+                normalize=False,
+                cutoff=cutoff,
             )
         return rho
 
@@ -1906,10 +1914,19 @@ class BaseBosonicState(BaseState):
         if sum(n) >= cutoff:
             raise ValueError("Cutoff argument must be larger than the sum of photon numbers.")
 
+        # thewalrus expects the (x_1, ..., x_n, p_1, ..., p_n) ordering
+        to_xxpp = np.concatenate(
+            [np.arange(0, 2 * self._modes, 2), np.arange(1, 2 * self._modes, 2)]
+        )
+
         prob = 0
         for i in range(self.num_weights):
             prob += self._weights[i] * twq.density_matrix_element(
-                self._mus[i], self._covs[i], n, n, hbar=self._hbar
+                self._mus[i][to_xxpp],
+                self._covs[i][to_xxpp][:, to_xxpp],
+                n,
+                n,
+                hbar=self._hbar,
             )
         return prob.real
 
